@@ -76,8 +76,13 @@ def history(RaggedArray, lens, data, sk, P, with_read):
     if w:
         res = outcome(lambda: programs.probe(env[w["target"]], w["kind"], P))
     maybe(3)
+    fin = sk.get("final")
+    fres = {"k": "none"}
+    if fin and fin["target"] in env:
+        # the *result* of a later operation must not depend on earlier reads either
+        fres = outcome(lambda: programs.probe(env[fin["target"]], fin["kind"], P))
     finals = tuple(obs_ragged(env[k]) for k in ("a", "b", "c") if k in env)
-    return (res if res is not None and res.get("k") == "raise" else {"k": "none"},) + finals
+    return (res if res is not None and res.get("k") == "raise" else {"k": "none"}, fres) + finals
 
 
 def kf_skeleton(sk):
@@ -151,6 +156,17 @@ def jobs(tier, seed):
     rest = [s for s in full if s not in core]
     rnd.shuffle(rest)
     sks += core + (rest[:60] if q else rest)
+    # selection, then an observed operation on it -- with and without an earlier read of the selection or its source
+    fins = []
+    for sel in ("rowrev", "rowlist", "mask", "colrev", "rowslice_a", "colstep2"):
+        for fk in ("rowsum", "colsum", "any", "rslice", "padded", "unique", "rowint", "colslice", "nonzero", "max"):
+            for rk in ("repr", "ravel", "index_view", "rowsum"):
+                for target in ("a", "b"):
+                    fins.append(dict(sel=sel, read=dict(target=target, kind=rk, pos=1), final=dict(target="b", kind=fk)))
+    corefin = [s_ for s_ in fins if s_["sel"] in ("rowrev", "rowlist") and s_["final"]["kind"] in ("rowsum", "colsum", "any", "rslice") and s_["read"]["kind"] in ("repr", "index_view") and s_["read"]["target"] == "b"]
+    restfin = [s_ for s_ in fins if s_ not in corefin]
+    rnd.shuffle(restfin)
+    sks += corefin + (restfin[:30] if q else restfin)
     # selections of selections
     deep = []
     for sel, sel2 in (("rowslice_a", "colrev"), ("colstep2", "colstep2"), ("mask", "colslice_a"), ("colrev", "rowlist")):
